@@ -148,3 +148,23 @@
 (define-fun standaloneNL ((x Int)) Bool
   (and (not (= (|node.left@| (|node.left@^-1| x)) x)) (not (= (|node.right@| (|node.right@^-1| x)) x))))
 ;@spec standaloneNL smt=standaloneNL args=Int res=Bool
+
+; ---- sorted string slices (collection names) ----
+(declare-fun strle (Int Int) Bool)   ; the order sort.Strings uses, on string ids
+(assert (forall ((a Int) (b Int)) (! (or (strle a b) (strle b a)) :pattern ((strle a b)))))
+(assert (forall ((a Int) (b Int) (c Int)) (! (=> (and (strle a b) (strle b c)) (strle a c)) :pattern ((strle a b) (strle b c)))))
+(define-fun sortedStrs ((c (Array Int Int)) (off Int) (n Int)) Bool
+  (forall ((i Int) (j Int)) (! (=> (and (<= off i) (< i j) (< j (+ off n))) (strle (select c i) (select c j))) :pattern ((select c i) (select c j)))))
+;@spec sortedStrs smt=sortedStrs args=(Array_Int_Int),Int,Int res=Bool
+; every element of c[off..off+n) satisfies membership in dom
+(define-fun allIn ((c (Array Int Int)) (off Int) (n Int) (dom (Array Int Bool))) Bool
+  (forall ((i Int)) (! (=> (and (<= off i) (< i (+ off n))) (select dom (select c i))) :pattern ((select c i)))))
+;@spec allIn smt=allIn args=(Array_Int_Int),Int,Int,(Array_Int_Bool) res=Bool
+; number of occurrences of v in c[off..off+n) (multiset view), with a witness index when positive
+(declare-fun occurs ((Array Int Int) Int Int Int) Int)
+(declare-fun occIdx ((Array Int Int) Int Int Int) Int)
+(assert (forall ((c (Array Int Int)) (off Int) (n Int) (v Int))
+  (! (and (>= (occurs c off n v) 0)
+          (=> (> (occurs c off n v) 0) (and (<= off (occIdx c off n v)) (< (occIdx c off n v) (+ off n)) (= (select c (occIdx c off n v)) v))))
+     :pattern ((occurs c off n v)))))
+;@spec occurs smt=occurs args=(Array_Int_Int),Int,Int,Int res=Int
